@@ -1,6 +1,6 @@
 //go:build cff
 
-package shadow
+package a
 
 import (
 	"context"
